@@ -2,6 +2,7 @@
 #define AVEL_IMPL_VECTORS_HPP
 
 #include <cmath>
+#include <cstring>
 #include <cfloat>
 #include <array>
 
@@ -331,6 +332,54 @@ namespace avel {
 // files use declarations/definitions contained within earlier files
 
 #include "Vectors_common.hpp"
+
+#if defined(AVEL_SSE2)
+namespace avel_impl {
+
+    ///
+    /// Stores the low n bytes of v to ptr without reading or writing any other
+    /// byte. Used by the partial stores of the 128-bit vectors in place of
+    /// maskmovdqu, which may fault when masked-off bytes lie in an inaccessible
+    /// page.
+    ///
+    /// \param ptr Address to store to. No alignment required
+    /// \param v Register whose low bytes should be stored
+    /// \param n Number of bytes to store. Values above 16 are treated as 16
+    AVEL_FINL void store_low_bytes(void* ptr, __m128i v, std::uint32_t n) {
+        auto* p = reinterpret_cast<unsigned char*>(ptr);
+
+        if (n >= 16) {
+            _mm_storeu_si128(reinterpret_cast<__m128i*>(p), v);
+            return;
+        }
+
+        if (n & 8) {
+            _mm_storel_epi64(reinterpret_cast<__m128i*>(p), v);
+            v = _mm_srli_si128(v, 8);
+            p += 8;
+        }
+
+        if (n & 4) {
+            std::uint32_t t = _mm_cvtsi128_si32(v);
+            std::memcpy(p, &t, sizeof(t));
+            v = _mm_srli_si128(v, 4);
+            p += 4;
+        }
+
+        if (n & 2) {
+            std::uint16_t t = std::uint16_t(_mm_cvtsi128_si32(v));
+            std::memcpy(p, &t, sizeof(t));
+            v = _mm_srli_si128(v, 2);
+            p += 2;
+        }
+
+        if (n & 1) {
+            *p = static_cast<unsigned char>(_mm_cvtsi128_si32(v));
+        }
+    }
+
+}
+#endif
 
 //Native vectors
 
